@@ -237,7 +237,33 @@ def geo : Family := mkFamily "sc_geo" 20 geoFixed 1 genGeo
 
 /-! ### ranges: all 32 flag combinations × 6 range types first (batches of one) -/
 
+/-- a numeric with `k` base-10000 digits 1, 2, 3, … (weight `k − 1`: an integer) -/
+def longNum (k : Nat) : Spec.Numeric := .fin false ((k : Int) - 1) 0 ((List.range k).map (· + 1))
+
+/-- numrange (fix 15) beyond the flag sweep: bounds on both sides of the 1-byte / 4-byte header switch (payload 126 / 127
+bytes), every amount of padding in front of a 4-byte-header upper bound (lower absent: 0; lower with a 4-byte header: 0 or 2;
+lower with a 1-byte header: 1 or 3), a 4-byte header whose first byte is zero (total length 192), both numeric header
+forms, NaN / ±Infinity, a value without digits, negative and fractional values -/
+def numRangeExtra : List Val :=
+  let s (k : Nat) : Bound := .num (.fin false 0 0 [k]) .short
+  let big (k : Nat) (f : Spec.HeaderForm) : Bound := .num (longNum k) f
+  [ .range .num 2 (s 1) (big 62 .short),       -- upper payload 126: still 1-byte header
+    .range .num 2 (s 1) (big 63 .short),       -- upper payload 128: 4-byte header, lower ends at offset 9 → pad 3
+    .range .num 2 (.num (.fin false 1 0 [1, 2]) .short) (big 63 .short),   -- lower 7 bytes, ends at 11 → pad 1
+    .range .num 10 (s 1) (big 63 .short),      -- lower absent → upper at offset 4, pad 0
+    .range .num 2 (big 63 .short) (big 64 .long),    -- lower 4-byte header, ends at 4+132 → pad 0
+    .range .num 2 (big 64 .short) (big 63 .long),    -- lower 4+130 → ends at 138 → pad 2
+    .range .num 6 (big 93 .short) (big 92 .long),    -- both total 192: header bytes 00 03 00 00
+    .range .num 18 (big 93 .short) (s 1),
+    .range .num 2 (s 1) (.num (longNum 61) .long),   -- long numeric form, payload 126
+    .range .num 2 (s 1) (.num (longNum 62) .long),   -- long numeric form, payload 128 → 4-byte header
+    .range .num 2 (.num .ninf .short) (.num .pinf .long), .range .num 6 (.num .nan .short) (.num .nan .short),
+    .range .num 2 (.num (.fin false 0 0 []) .short) (.num (.fin false 0 2 []) .long),
+    .range .num 6 (.num (.fin true 0 2 [12, 3400]) .short) (.num (.fin false (-1) 4 [5000]) .long),
+    .range .num 2 (.num (.fin false 63 0 [1]) .short) (.num (.fin false 100 0 [9999]) .long) ]
+
 def rangeFixed (i : Nat) : List Val :=
+  if i ≥ 192 then [numRangeExtra.getD (i - 192) (.range .num 1 (.int 0) (.int 0))] else
   let ty := allRangeTys.getD (i / 32) .int4
   let flags := i % 32
   let (lo, hi) : Bound × Bound := match ty with
@@ -246,10 +272,10 @@ def rangeFixed (i : Nat) : List Val :=
     | .date => (.date (.fin 2020 2 29), .date .posInf)
     | .ts => (.ts (.fin 1999 12 31 23 59 59 500000), .ts (.fin 2300 1 1 0 0 0 0))
     | .tstz => (.ts .negInf, .ts (.fin 2024 6 30 12 0 0 0))
-    | .num => (.num 1, .num 9999)
+    | .num => (.num (.fin false 0 0 [1]) .short, .num (.fin false 0 0 [9999]) .short)
   [.range ty flags lo hi]
 
-def ranges : Family := mkFamily "sc_range" 192 rangeFixed 1 fun _ => genRange
+def ranges : Family := mkFamily "sc_range" 207 rangeFixed 1 fun _ => genRange
 
 /-! ### raw: arbitrary bytes through every scalar decoder, full value comparison (spec silent) -/
 
